@@ -83,69 +83,102 @@ func c12Fold(c *Ctx, r *Report) {
 		r.Undecided(rule, search.Name, "signature", c.Pos(search.Decl.Pos()), "expected (text, loweredNeedle string)")
 		return
 	}
-	mentionsElemOf := func(e ast.Expr, o types.Object) bool {
-		hit := false
-		ast.Inspect(e, func(n ast.Node) bool {
-			if ix, ok := n.(*ast.IndexExpr); ok && identObj(info, ix.X) == o {
-				hit = true
-			}
-			return true
-		})
-		return hit
-	}
 	var usedFold *types.Func
 	nCmp := 0
-	ast.Inspect(search.Decl.Body, func(n ast.Node) bool {
-		be, ok := n.(*ast.BinaryExpr)
-		if !ok || (be.Op != token.EQL && be.Op != token.NEQ) {
-			return true
-		}
-		var hs, ns ast.Expr
-		if mentionsElemOf(be.X, hay) {
-			hs, ns = be.X, be.Y
-		} else if mentionsElemOf(be.Y, hay) {
-			hs, ns = be.Y, be.X
-		}
-		if hs == nil {
-			return true
-		}
-		nCmp++
-		// haystack side must be F(s[..]) with F a byte fold of this package
-		okH := false
-		if ce, isCall := ast.Unparen(hs).(*ast.CallExpr); isCall && len(ce.Args) == 1 {
-			if f := calleeFunc(info, ce); f != nil && foldObj[f] {
-				if ix, isIx := ast.Unparen(ce.Args[0]).(*ast.IndexExpr); isIx && identObj(info, ix.X) == hay {
-					okH = true
-					usedFold = f
-				}
-			}
-		}
-		// the other side is a needle byte (raw or folded by the same function) - not an ad-hoc transformation
-		okN := false
-		nsu := ast.Unparen(ns)
-		if ix, isIx := nsu.(*ast.IndexExpr); isIx && identObj(info, ix.X) == needle {
-			okN = true
-		}
-		if ce, isCall := nsu.(*ast.CallExpr); isCall && len(ce.Args) == 1 {
-			if f := calleeFunc(info, ce); f != nil && foldObj[f] && mentionsElemOf(ce.Args[0], needle) {
-				okN = true
-			}
-		}
-		if id, isId := nsu.(*ast.Ident); isId {
-			// a local holding a needle byte
-			ast.Inspect(search.Decl.Body, func(m ast.Node) bool {
-				if as, ok := m.(*ast.AssignStmt); ok && len(as.Lhs) == 1 && len(as.Rhs) == 1 && identObj(info, as.Lhs[0]) == info.Uses[id] {
-					if ix, isIx := ast.Unparen(as.Rhs[0]).(*ast.IndexExpr); isIx && identObj(info, ix.X) == needle {
-						okN = true
-					}
+	var checkCmps func(fn *FuncInfo, hay, needle types.Object, depth int)
+	checkCmps = func(fn *FuncInfo, hay, needle types.Object, depth int) {
+		info := fn.Pkg.TypesInfo
+		mentionsElemOf := func(e ast.Expr, o types.Object) bool {
+			hit := false
+			ast.Inspect(e, func(n ast.Node) bool {
+				if ix, ok := n.(*ast.IndexExpr); ok && identObj(info, ix.X) == o {
+					hit = true
 				}
 				return true
 			})
+			return hit
 		}
-		r.Check(okH && okN, rule, search.Name, exprStr(be), c.Pos(be.Pos()), "fold: the text byte is folded by the package's byte fold and compared with a needle byte",
-			"a byte of the searched text is compared with the needle without going through the package's byte fold (Unicode-aware or ad-hoc folding of single bytes): pattern and line are folded by different units, so a line that matches case-sensitively can stop matching with --ignore-case")
-		return true
-	})
+		ast.Inspect(fn.Decl.Body, func(n ast.Node) bool {
+			if ce, ok := n.(*ast.CallExpr); ok && depth < 2 {
+				// a helper of this package that receives the text and the needle
+				if f := calleeFunc(info, ce); f != nil && f.Pkg() != nil && f.Pkg().Path() == dissectPkg && !foldObj[f] {
+					if hfi := funcDeclOf(c, f); hfi != nil && hfi.Decl.Recv == nil {
+						var ps []types.Object
+						for _, fld := range hfi.Decl.Type.Params.List {
+							for _, nm := range fld.Names {
+								ps = append(ps, hfi.Pkg.TypesInfo.Defs[nm])
+							}
+						}
+						var h2, n2 types.Object
+						for i, a := range ce.Args {
+							if i >= len(ps) {
+								break
+							}
+							if identObj(info, a) == hay {
+								h2 = ps[i]
+							}
+							if identObj(info, a) == needle {
+								n2 = ps[i]
+							}
+						}
+						if h2 != nil && n2 != nil {
+							checkCmps(hfi, h2, n2, depth+1)
+						}
+					}
+				}
+			}
+			be, ok := n.(*ast.BinaryExpr)
+			if !ok || (be.Op != token.EQL && be.Op != token.NEQ) {
+				return true
+			}
+			var hs, ns ast.Expr
+			if mentionsElemOf(be.X, hay) {
+				hs, ns = be.X, be.Y
+			} else if mentionsElemOf(be.Y, hay) {
+				hs, ns = be.Y, be.X
+			}
+			if hs == nil {
+				return true
+			}
+			nCmp++
+			// haystack side must be F(s[..]) with F a byte fold of this package
+			okH := false
+			if ce, isCall := ast.Unparen(hs).(*ast.CallExpr); isCall && len(ce.Args) == 1 {
+				if f := calleeFunc(info, ce); f != nil && foldObj[f] {
+					if ix, isIx := ast.Unparen(ce.Args[0]).(*ast.IndexExpr); isIx && identObj(info, ix.X) == hay {
+						okH = true
+						usedFold = f
+					}
+				}
+			}
+			// the other side is a needle byte (raw or folded by the same function) - not an ad-hoc transformation
+			okN := false
+			nsu := ast.Unparen(ns)
+			if ix, isIx := nsu.(*ast.IndexExpr); isIx && identObj(info, ix.X) == needle {
+				okN = true
+			}
+			if ce, isCall := nsu.(*ast.CallExpr); isCall && len(ce.Args) == 1 {
+				if f := calleeFunc(info, ce); f != nil && foldObj[f] && mentionsElemOf(ce.Args[0], needle) {
+					okN = true
+				}
+			}
+			if id, isId := nsu.(*ast.Ident); isId {
+				// a local holding a needle byte
+				ast.Inspect(fn.Decl.Body, func(m ast.Node) bool {
+					if as, ok := m.(*ast.AssignStmt); ok && len(as.Lhs) == 1 && len(as.Rhs) == 1 && identObj(info, as.Lhs[0]) == info.Uses[id] {
+						if ix, isIx := ast.Unparen(as.Rhs[0]).(*ast.IndexExpr); isIx && identObj(info, ix.X) == needle {
+							okN = true
+						}
+					}
+					return true
+				})
+			}
+			r.Check(okH && okN, rule, fn.Name, exprStr(be), c.Pos(be.Pos()), "fold: the text byte is folded by the package's byte fold and compared with a needle byte",
+				"a byte of the searched text is compared with the needle without going through the package's byte fold (Unicode-aware or ad-hoc folding of single bytes): pattern and line are folded by different units, so a line that matches case-sensitively can stop matching with --ignore-case")
+			return true
+		})
+	}
+	checkCmps(search, hay, needle, 0)
 	if nCmp == 0 {
 		r.Undecided(rule, search.Name, "comparisons", c.Pos(search.Decl.Pos()), "no comparison of a text byte with the needle found")
 	}
@@ -187,7 +220,7 @@ func c12Fold(c *Ctx, r *Report) {
 	if nLit == 0 {
 		r.Undecided(rule, compile.Name, "literal folding", c.Pos(compile.Decl.Pos()), "no `lit = fold(lit)` statement found under ignoreCase")
 	}
-	r.Floor(rule, 4, "two comparisons in the search and two literal folds in CompileEx")
+	r.Floor(rule, 3, "at least one text/needle comparison in the search and two literal folds in CompileEx")
 }
 
 func c12Advance(c *Ctx, r *Report) {
@@ -220,7 +253,7 @@ func c12Advance(c *Ctx, r *Report) {
 		if !ok || len(ce.Args) != 2 {
 			return true
 		}
-		if sx, ok := ast.Unparen(ce.Args[0]).(*ast.SliceExpr); ok && sx.Low != nil && sx.High == nil {
+		if sx, ok := unalias(info, fi.Decl.Body, ce.Args[0]).(*ast.SliceExpr); ok && sx.Low != nil && sx.High == nil {
 			if fv := fieldVar(info, ce.Fun); fv != nil && fv.Name() == "indexOf" || strings.HasPrefix(calleeName(info, ce), "strings.Index") {
 				startObj = identObj(info, sx.Low)
 				offObj = identObj(info, as.Lhs[0])
